@@ -212,22 +212,10 @@ class Ctx:
             except hypothesis.errors.HypothesisException:
                 raise
             except Exception as e:  # unexpected exception from the code under test
-                clause = "unexpected-exception:" + type(e).__name__
-                detail = "".join(traceback.format_exception_only(type(e), e)).strip()
-                tb = traceback.extract_tb(e.__traceback__)
-                where = ""
-                for fr in reversed(tb):
-                    if "/lbfgsb/" in fr.filename:
-                        where = f" at {os.path.basename(fr.filename)}:{fr.lineno}"
-                        break
-                if not where and tb:
-                    fr = tb[-1]
-                    where = f" at {os.path.basename(fr.filename)}:{fr.lineno}"
-                    if "/vf/" in fr.filename:
-                        # the harness itself broke: not a verdict on the code
-                        raise HarnessError(f"{detail}{where}\n" + "".join(traceback.format_tb(e.__traceback__)))
-                if self._note_fail(state, spec, clause, detail + where):
-                    raise Violation(clause, detail + where, spec) from e
+                v = exception_to_violation(e)
+                if self._note_fail(state, spec, v.clause, v.detail):
+                    v.spec = spec
+                    raise v from e
                 return
 
         phases = [Phase.explicit, Phase.generate, Phase.shrink]
@@ -356,7 +344,10 @@ class Ctx:
                 body(item, self.stats)
             except Discard as d:
                 self.stats.discard(d.why)
-            except Violation as v:
+            except (Violation, Exception) as e:
+                if isinstance(e, HarnessError):
+                    raise
+                v = e if isinstance(e, Violation) else exception_to_violation(e)
                 per_clause[v.clause] += 1
                 if per_clause[v.clause] <= max_fail:
                     spec = v.spec if v.spec is not None else item
@@ -383,6 +374,25 @@ class Ctx:
 
 class HarnessError(Exception):
     pass
+
+
+def exception_to_violation(e: BaseException) -> Violation:
+    """An exception that is neither Violation nor Discard escaped from a case body.  If its
+    innermost frame lies in the code under test (or in a library it called) it is a finding
+    ("unexpected-exception:<Type>"); if the harness itself broke it is a HarnessError."""
+    detail = "".join(traceback.format_exception_only(type(e), e)).strip()
+    tb = traceback.extract_tb(e.__traceback__)
+    where = ""
+    for fr in reversed(tb):
+        if "/lbfgsb/" in fr.filename:
+            where = f" at {os.path.basename(fr.filename)}:{fr.lineno}"
+            break
+    if not where and tb:
+        fr = tb[-1]
+        where = f" at {os.path.basename(fr.filename)}:{fr.lineno}"
+        if "/vf/" in fr.filename:
+            raise HarnessError(f"{detail}{where}\n" + "".join(traceback.format_tb(e.__traceback__)))
+    return Violation("unexpected-exception:" + type(e).__name__, detail + where)
 
 
 def _match_known(k: dict, spec: Any) -> bool:
